@@ -12,6 +12,7 @@ import SlocModel.Driver.GitDiff
 import SlocModel.Driver.Gate
 import SlocModel.Driver.Report
 import SlocModel.Driver.PathSpelling
+import SlocModel.Driver.Check
 open SlocModel.Driver
 
 def dispatch (line : String) : String :=
@@ -59,6 +60,7 @@ def dispatch (line : String) : String :=
       | "owner" => handleOwner args
       | "target" => handleTarget args
       | "match-key" => handleMatchKey args
+      | "check-run" => handleCheckRun args
       | _ => some "bad-op"
     r.getD "bad-args"
   | [] => "bad-op"
